@@ -1684,7 +1684,8 @@ int32 matrixCreateSessionTicket(ssl_t *ssl, unsigned char *out, int32 *outLen)
 
     if (psGetPrngLocked(randno, AES_IVLEN, ssl->userPtr) < 0)
     {
-        psTraceInfo("WARNING: psGetPrngLocked failed\n");
+        psTraceErrr("psGetPrngLocked failed: no ticket IV\n");
+        return PS_FAILURE;
     }
 
     psLockMutex(&g_sessTicketLock);
